@@ -357,6 +357,29 @@ theorem quartic_generator_is_jw (w0 w1 w2 : GQ) :
   mat_unfold
   mat_entries
 
+/-- `DoubleExcitationGate` as a generator statement: its generator `G = −|0011⟩⟨1100| − h.c.` is the Jordan–Wigner
+image (Spec, four modes) of `−(a†_2 a†_3 a_1 a_0 + h.c.)`; the eigen-components written in the source today
+(extracted on every run; half-turn exponents `0, −1, +1`) are a complete family of orthogonal projectors with
+`G = P₋ − P₊`, and the Model unitary is `P₀ + e^{−iπt} P₋ + e^{+iπt} P₊` (`(c, s) = (cos πt, sin πt)`), i.e.
+`exp(−iπt·G)` on the spectrum.  (The CNOT / `Z**(1/8)` decomposition lives in `ℚ(ζ₁₆)`: oracle only.) -/
+theorem double_excitation_spectral (c s : Rat) :
+    OFV.Generated.C14.doubleExcitationEig = [(0, dxP0), (-1, dxPm), (1, dxPp)] ∧
+    doubleExcitationGenerator =
+      Mat.smul (-1) (Mat.add (opMat4 [([(2, 1), (3, 1), (1, 0), (0, 0)], 1)])
+        (Mat.dagger (opMat4 [([(2, 1), (3, 1), (1, 0), (0, 0)], 1)]))) ∧
+    Mat.add (Mat.add dxP0 dxPm) dxPp = Mat.identity 16 ∧
+    Mat.mul dxP0 dxP0 = dxP0 ∧ Mat.mul dxPm dxPm = dxPm ∧ Mat.mul dxPp dxPp = dxPp ∧
+    Mat.mul dxP0 dxPm = zero16 ∧ Mat.mul dxP0 dxPp = zero16 ∧ Mat.mul dxPm dxPp = zero16 ∧
+    doubleExcitationGenerator = Mat.add dxPm (Mat.smul (-1) dxPp) ∧
+    doubleExcitation c s =
+      Mat.add (Mat.add dxP0 (Mat.smul (cis c (-s)) dxPm)) (Mat.smul (cis c s) dxPp) := by
+  refine ⟨dxEig_eq, by decide +kernel, by decide +kernel, by decide +kernel, by decide +kernel, by decide +kernel,
+    by decide +kernel, by decide +kernel, by decide +kernel, by decide +kernel, ?_⟩
+  rw [doubleExcitation_lit]
+  unfold dxP0 dxPm dxPp
+  mat_unfold
+  mat_entries
+
 /-- Eigen-structure of the cubic gate for general weights, without eigenvalues: the 3×3 block `M` that
 `_eigen_components` hands to `numpy.linalg.eigh` is Hermitian and satisfies its characteristic equation
 `M³ = (|w0|²+|w1|²+|w2|²)·M + 2Re(w0 w̄1 w2)·1`, so `exp(−itM)` is a polynomial of degree ≤ 2 in `M` with
